@@ -116,10 +116,25 @@ def irp_compare(c):
     diffs = []
     import re
     uu = re.compile(r'[0-9a-f]{8}-[0-9a-f]{4}-[0-9a-f]{4}-[0-9a-f]{4}-[0-9a-f]{12}')
+    threaded = 0
     for d, a, b in zip(docs, lo, fo):
         a, b = uu.sub('<uuid>', a), uu.sub('<uuid>', b)
+        try:
+            text = open(d, encoding='utf-8', errors='replace').read()
+        except OSError:
+            text = ''
+        if '<invoke' in text or 'delay=' in text or 'delayexpr=' in text:
+            # invoked sessions run on their own threads and log through the same logger, timers fire on the timer
+            # thread: the interleaving of these traces is not a function of the document (C09/C11 judge them);
+            # only the outcome (state pass reached or not) is compared
+            threaded += 1
+            ca = [t for t in a.split() if t in ('PASS', 'NOPASS')][-1:]
+            cb = [t for t in b.split() if t in ('PASS', 'NOPASS')][-1:]
+            if ca == cb:
+                continue
+            a, b = ' '.join(ca), ' '.join(cb)
         if a != b:
             ta, tb = a.split(), b.split()
             p = first_diff(ta, tb) or 0
             diffs.append({'document': os.path.relpath(d, REPO), 'large': ' '.join(ta[max(0, p - 6):p + 6]), 'fast': ' '.join(tb[max(0, p - 6):p + 6])})
-    return {'documents': len(docs), 'differences': diffs, 'different': len(diffs)}
+    return {'documents': len(docs), 'compared_by_outcome_only': threaded, 'differences': diffs, 'different': len(diffs)}
